@@ -37,7 +37,7 @@ impl Property for C11 {
         "(a) fixed: every binary/unary operator x all pairs of boundary operands (exhaustive over the boundary sets), folded literal vs M-ops bit-exact (logical operators by truthiness), plus undefined operations (int / 0, % 0) which must be diagnosed; (b) random constant trees depth <= 5; (c) partially constant trees with registers: AstVm(e) vs AstVm(const_simplify(e)) over 8 valuations; (d) chains of 1..6 const definitions in random order with sigil casts and cycles: lowered call with the name vs with the inlined expression, debug-info const values vs M-ops; non-trivial = an operand at a boundary value, or a chain of length >= 2"
     }
     fn tape_len(&self, tier: Tier) -> usize { tier.pick(200, 400) }
-    fn cases(&self, tier: Tier) -> u32 { tier.pick(5000, 500000) }
+    fn cases(&self, tier: Tier) -> u32 { tier.pick(300000, 6000000) }
     fn required_labels(&self, _tier: Tier) -> Vec<&'static str> { vec!["table", "tree", "partial", "chain", "undefined", "cycle"] }
 
     fn fixed_cases(&self, _tier: Tier, _known: &Known) -> Vec<Value> {
